@@ -3,6 +3,12 @@ namespace CelmaVerif.FixedString
 open CelmaVerif
 variable {c : Cfg}
 
+/-
+  C11, backward searches: on a well-formed string `rfind`, `find_last_of`, `find_last_not_of` return what
+  the textbook definitions of Model/StdString.lean return on the text held, `abs s`.  Both sides are
+  brought to the same normal form, `lastBelow q n` = the greatest index below `n` satisfying `q`.
+-/
+
 /-- greatest index below `n` that satisfies `q` -/
 def lastBelow (q : Nat → Bool) : Nat → Option Nat
   | 0 => none
@@ -166,5 +172,266 @@ theorem rfind_eq (x pat : List Nat) (pos : Nat) :
   rw [rfindUpTo_eq]
   simp only [Nat.sub_zero, Nat.zero_add]
   cases lastBelow (fun k => pat.isPrefixOf (x.drop k)) (min (pos + 1) (x.length + 1)) <;> rfl
+
+/-! ### character-class searches: `find_last_of`, `find_last_not_of` -/
+
+theorem get1_ok {a : List Byte} {i : Nat} (h : i < a.length) : get1 a i = .ok a[i] := by
+  unfold get1; rw [List.getElem?_eq_getElem h]
+
+theorem rf_abs_getElem? {s : FStr} (hs : WF c s) {k : Nat} (hk : k < s.len) :
+    ∃ h : k < s.buf.length, (abs s)[k]? = some s.buf[k] ∧ s.buf[k] ∈ abs s := by
+  have := hs.1; have := hs.2.1
+  have hb : k < s.buf.length := by omega
+  have e : (abs s)[k]? = some s.buf[k] := by
+    unfold abs; rw [List.getElem?_take, if_pos hk, List.getElem?_eq_getElem hb]
+  exact ⟨hb, e, List.mem_of_getElem? e⟩
+
+/-- a backward scan whose per-character test `f` computes the class `g` on the characters held -/
+theorem rscan_class {s : FStr} (hs : WF c s) (f : Byte → Res Bool) (g : Nat → Bool)
+    (hf : ∀ x, x ∈ abs s → f x = .ok (g x)) {n pos : Nat} (hn : n = min (pos + 1) s.len) :
+    rscanLoop s.buf (fun idx => bindR (get1 s.buf idx) f) n = .ok (StdString.findLast (abs s) g pos) := by
+  rw [findLast_eq, abs_length hs, ← hn]
+  apply rscanLoop_eq
+  intro idx hidx
+  obtain ⟨hb, e, hm⟩ := rf_abs_getElem? hs (k := idx) (by omega)
+  rw [get1_ok hb, bindR_ok, e, Option.any_some, hf _ hm]
+
+theorem findLast_neg (x set : List Nat) (pos : Nat) (neg : Bool) :
+    (if neg then StdString.findLastNotOf x set pos else StdString.findLastOf x set pos) =
+      StdString.findLast x (fun y => if neg then !set.contains y else set.contains y) pos := by
+  cases neg <;> rfl
+
+/-- (2) `find_last_of( ch, pos)` / `find_last_not_of( ch, pos)` -/
+theorem findLastOfCh_abs {s : FStr} (hs : WF c s) (ch : Byte) (pos : Nat) (neg : Bool)
+    (hp : pos = npos c ∨ pos < s.len) (hbig : s.len ≤ npos c) :
+    findLastOfCh c s ch pos neg =
+      .ok (if neg then StdString.findLastNotOf (abs s) [ch] pos else StdString.findLastOf (abs s) [ch] pos) := by
+  rw [findLast_neg]
+  have hf : ∀ x : Nat, x ∈ abs s →
+      (Res.ok (if neg = true then decide (x ≠ ch) else decide (x = ch)) : Res Bool) =
+        .ok (if neg then ![ch].contains x else [ch].contains x) := by
+    intro x _; cases neg <;> simp
+  unfold findLastOfCh
+  by_cases h : pos = npos c
+  · rw [if_pos h]
+    exact rscan_class hs _ _ hf (by omega)
+  · rw [if_neg h]
+    have hlt : pos < s.len := by
+      rcases hp with hp | hp
+      · exact absurd hp h
+      · exact hp
+    rw [if_neg (by omega)]
+    exact rscan_class hs _ _ hf (by omega)
+
+theorem rf_memN_eq {a : List Byte} (x : Byte) : ∀ (fuel i : Nat), i + fuel ≤ a.length →
+    memN a fuel i x = .ok (((a.drop i).take fuel).contains x)
+  | 0, i, _ => by simp [memN]
+  | fuel + 1, i, h => by
+    have hi : i < a.length := by omega
+    unfold memN
+    rw [get1_ok hi, bindR_ok, List.drop_eq_getElem_cons hi, List.take_succ_cons, List.contains_cons]
+    by_cases hx : a[i] = x
+    · rw [if_pos hx]; simp [hx]
+    · rw [if_neg hx, rf_memN_eq x fuel (i + 1) (by omega)]
+      have : (x == a[i]) = false := by simp; exact fun h => hx h.symm
+      rw [this]; simp
+
+/-- (3) `find_last_of( str, pos, count)` / `find_last_not_of( str, pos, count)` -/
+theorem findLastOfPN_abs {s : FStr} (hs : WF c s) {a : List Byte} {pos count : Nat} (ha : count ≤ a.length)
+    (hc0 : 0 < count) (hp : pos < s.len) (neg : Bool) :
+    findLastOfPN s a pos count neg =
+      .ok (if neg then StdString.findLastNotOf (abs s) (a.take count) pos
+           else StdString.findLastOf (abs s) (a.take count) pos) := by
+  rw [findLast_neg]
+  have hm : ∀ x : Nat, memN a count 0 x = .ok ((a.take count).contains x) := by
+    intro x; rw [rf_memN_eq x count 0 (by omega)]; simp
+  unfold findLastOfPN
+  rw [if_neg (by omega)]
+  refine rscan_class hs _ _ ?_ (by omega)
+  intro x _
+  cases neg
+  · simp [hm]
+  · simp [hm, notR]
+
+/-! ### `rfind` -/
+
+/-- the `memcmp` test of the `rfind` loops is "the pattern occurs at `k`" -/
+theorem prefix_at_abs {s : FStr} (hs : WF c s) {a : List Byte} {n k : Nat} (ha : n ≤ a.length)
+    (hk : k + n ≤ s.len) :
+    bindR (memcmp s.buf k a 0 n) (fun r => Res.ok (decide (r = 0))) =
+      .ok ((a.take n).isPrefixOf ((abs s).drop k)) := by
+  have := hs.1; have := hs.2.1
+  have hla : (a.take n).length = n := by rw [List.length_take]; omega
+  rw [memcmp_ok (by omega) (by omega), bindR_ok]
+  congr 1
+  apply Bool.eq_iff_iff.mpr
+  rw [decide_eq_true_iff, isPrefixOf_iff_take, hla, List.drop_zero,
+    cmpSign_eq_zero _ _ (by rw [List.length_take, List.length_take, List.length_drop]; omega)]
+  unfold abs
+  rw [List.drop_take, List.take_take, Nat.min_eq_left (by omega)]
+
+theorem prefix_at_long {x pat : List Nat} {k : Nat} (h0 : 0 < pat.length)
+    (h : x.length < k + pat.length) :
+    pat.isPrefixOf (x.drop k) = false := by
+  apply Bool.eq_false_iff.mpr
+  intro hp
+  have := congrArg List.length ((isPrefixOf_iff_take _ _).mp hp)
+  rw [List.length_take, List.length_drop] at this
+  have h2 := Nat.min_le_right pat.length (x.length - k)
+  rw [this] at h2
+  omega
+
+/-- (4) `rfind( str, pos)` for a search string of `n > 0` characters -/
+theorem rfindN_abs (hc : CfgOK c) {s : FStr} (hs : WF c s) {a : List Byte} (pos : Nat) {n : Nat}
+    (ha : n ≤ a.length) (hn : 0 < n) :
+    rfindN c s a pos n = .ok (StdString.rfind (abs s) (a.take n) pos) := by
+  have := hs.1; have := hs.2.1; have := hc.hW
+  have hl := abs_length hs
+  have hla : (a.take n).length = n := by rw [List.length_take]; omega
+  rw [rfind_eq, hl]
+  unfold rfindN
+  by_cases h : s.len = 0 ∨ n = 0 ∨ n > s.len
+  · rw [if_pos h]
+    congr 1; symm
+    apply lastBelow_eq_none.mpr
+    intro k hk
+    apply prefix_at_long (by omega); rw [hl, hla]; omega
+  · rw [if_neg h]
+    simp only
+    generalize hpos' : (if pos = npos c ∨ pos > s.len - n then s.len - n else pos) = pos'
+    have h1 : pos' + 1 ≤ min (pos + 1) (s.len + 1) ∧ pos' ≤ s.len - n ∧
+        (pos' = s.len - n ∨ pos' = pos) := by
+      rw [← hpos']
+      by_cases hcond : pos = npos c ∨ pos > s.len - n
+      · rw [if_pos hcond]; unfold npos at hcond; omega
+      · rw [if_neg hcond]; unfold npos at hcond; omega
+    rw [lastBelow_shrink (m := pos' + 1) h1.1 ?_]
+    · apply rscanLoop_eq
+      intro idx hidx
+      exact prefix_at_abs hs ha (by omega)
+    · intro k hk1 hk2
+      apply prefix_at_long (by omega); rw [hl, hla]; omega
+
+/-- the test of the `rfind( ch)` loop, also at the terminator (index `len`), for `ch ≠ 0` -/
+theorem rfindCh_test {s : FStr} (hs : WF c s) (ch : Byte) (hch : ch ≠ 0) {k : Nat} (hk : k ≤ s.len) :
+    bindR (get1 s.buf k) (fun x => Res.ok (decide (x = ch))) =
+      .ok ([ch].isPrefixOf ((abs s).drop k)) := by
+  have := hs.1; have := hs.2.1
+  have hb : k < s.buf.length := by omega
+  rw [get1_ok hb, bindR_ok]
+  congr 1
+  by_cases hlt : k < s.len
+  · have hka : k < (abs s).length := by rw [abs_length hs]; exact hlt
+    rw [List.drop_eq_getElem_cons hka]
+    have : (abs s)[k] = s.buf[k] := by simp only [abs, List.getElem_take]
+    rw [this]
+    by_cases he : s.buf[k] = ch
+    · simp [List.isPrefixOf, he]
+    · have he' : ¬ ch = s.buf[k] := fun h => he h.symm
+      simp [List.isPrefixOf, he, he']
+  · have hk' : k = s.len := by omega
+    have h0 : s.buf[k] = 0 := by
+      have := hs.2.2
+      rw [← hk', List.getElem?_eq_getElem hb] at this
+      exact Option.some.inj this
+    have : (abs s).drop k = [] := by
+      apply List.drop_eq_nil_of_le; rw [abs_length hs]; omega
+    rw [this, h0]
+    simp [List.isPrefixOf]
+    exact fun h => hch h.symm
+
+/-- (5) `rfind( ch, pos)` -/
+theorem rfindCh_abs (hc : CfgOK c) {s : FStr} (hs : WF c s) (ch : Byte) (hch : ch ≠ 0) {pos : Nat}
+    (hp : pos = npos c ∨ pos < s.len) :
+    rfindCh c s ch pos = .ok (StdString.rfind (abs s) [ch] pos) := by
+  have := hs.1; have := hs.2.1; have := hc.hW
+  have hl := abs_length hs
+  rw [rfind_eq, hl]
+  unfold rfindCh
+  by_cases h0 : s.len = 0
+  · rw [if_pos (Or.inr h0)]
+    congr 1; symm
+    apply lastBelow_eq_none.mpr
+    intro k hk
+    apply prefix_at_long (by simp)
+    rw [hl]; simp only [List.length_singleton]; omega
+  · have hadd : ¬ (addW c pos 1 > s.len) := by
+      unfold addW; unfold npos at hp
+      split <;> omega
+    rw [if_neg (by intro h; rcases h with h | h; exact hadd h; exact h0 h)]
+    simp only
+    have e : (if pos = npos c then s.len else pos) + 1 = min (pos + 1) (s.len + 1) := by
+      unfold npos; unfold npos at hp; split <;> omega
+    rw [e]
+    apply rscanLoop_eq
+    intro idx hidx
+    exact rfindCh_test hs ch hch (by omega)
+
+/-! ### `find_last_of( str, pos)` with `strchr` -/
+
+theorem cstrlenAux_le : ∀ (a : List Byte) (k m : Nat), cstrlenAux a k = .ok m → k ≤ m
+  | [], k, m, h => by simp [cstrlenAux] at h
+  | b :: bs, k, m, h => by
+    unfold cstrlenAux at h
+    by_cases hb : b = 0
+    · rw [if_pos hb] at h; cases h; omega
+    · rw [if_neg hb] at h
+      have := cstrlenAux_le bs (k + 1) m h
+      omega
+
+/-- `strchr` on a C string answers membership in the characters before the terminator (for `x ≠ 0`) -/
+theorem rf_strchr_eq (x : Byte) (hx : x ≠ 0) : ∀ (a : List Byte) (k m : Nat), cstrlenAux a k = .ok m →
+    strchr a x = .ok ((a.take (m - k)).contains x)
+  | [], k, m, h => by simp [cstrlenAux] at h
+  | b :: bs, k, m, h => by
+    unfold cstrlenAux at h
+    unfold strchr
+    by_cases hb : b = 0
+    · rw [if_pos hb] at h; cases h
+      rw [if_neg (by rw [hb]; exact fun h => hx h.symm), if_pos hb]; simp
+    · rw [if_neg hb] at h
+      have hle := cstrlenAux_le bs (k + 1) m h
+      have e : m - k = (m - (k + 1)) + 1 := by omega
+      rw [e, List.take_succ_cons, List.contains_cons]
+      by_cases hbx : b = x
+      · rw [if_pos hbx]; simp [hbx]
+      · rw [if_neg hbx, if_neg hb, rf_strchr_eq x hx bs (k + 1) m h]
+        have : (x == b) = false := by simp; exact fun h => hbx h.symm
+        rw [this]; simp
+
+/-- (6) `find_last_of( str, pos)` / `find_last_not_of( str, pos)`: the set is the C string `a` -/
+theorem findLastOfImpl_abs (hc : CfgOK c) {s : FStr} (hs : WF c s) {a : List Byte} {n : Nat}
+    (hlen : cstrlen a = .ok n) (hn : 0 < n) (hx : (0 : Byte) ∉ abs s) {pos : Nat}
+    (hp : pos = npos c ∨ pos < s.len) (neg : Bool) :
+    findLastOfImpl c s a pos n neg =
+      .ok (if neg then StdString.findLastNotOf (abs s) (a.take n) pos
+           else StdString.findLastOf (abs s) (a.take n) pos) := by
+  have := hs.1; have := hs.2.1; have := hc.hW
+  rw [findLast_neg]
+  have hm : ∀ x : Nat, x ∈ abs s → strchr a x = .ok ((a.take n).contains x) := by
+    intro x hxm
+    have := rf_strchr_eq x (by intro h; rw [h] at hxm; exact hx hxm) a 0 n hlen
+    simpa using this
+  have hf : ∀ x : Nat, x ∈ abs s →
+      (if neg = true then notR (strchr a x) else strchr a x) =
+        .ok (if neg then !(a.take n).contains x else (a.take n).contains x) := by
+    intro x hxm; rw [hm x hxm]; cases neg <;> simp [notR]
+  unfold findLastOfImpl
+  simp only
+  by_cases h0 : s.len = 0
+  · rw [if_pos (Or.inl (by omega))]
+    rw [findLast_eq, abs_length hs, h0]; rfl
+  · have e : (if pos = npos c then s.len else addW c pos 1) = min (pos + 1) s.len := by
+      unfold addW; unfold npos; unfold npos at hp
+      split
+      · omega
+      · split <;> omega
+    rw [e]
+    have hno : ¬ (subW c (min (pos + 1) s.len) 1 ≥ s.len ∨ n = 0) := by
+      unfold subW; intro h; rcases h with h | h
+      · split at h <;> omega
+      · omega
+    rw [if_neg hno]
+    exact rscan_class hs _ _ hf rfl
 
 end CelmaVerif.FixedString
